@@ -35,7 +35,10 @@ fn shape_case(ctx: &Ctx, rep: &mut Report, case: u64, g: &mut Sm64) {
         let a: Vec<Vec<f64>> = init_with_seed(n, d, seed);
         let a2: Vec<Vec<f64>> = init_with_seed(n, d, seed);
         let f: Vec<Vec<f32>> = init_with_seed(n, d, seed);
+        // (an f32 request of at least the same size first: the f64 result must not depend on it)
+        let det32: Vec<Vec<f32>> = init_det(n + 1, d);
         let det: Vec<Vec<f64>> = init_det(n, d);
+        assert_eq!(det32.len(), n + 1);
         let s42: Vec<Vec<f64>> = init_with_seed(n, d, 42);
         let os: Vec<Vec<f64>> = init(n, d);
         let os2: Vec<Vec<f64>> = init(n, d);
